@@ -29,6 +29,9 @@ class GCMAlgorithmFast(GCMAlgorithm):
             for vertices in grouper(k_list, self._motif_sizes[k]):
                 # add the edges to the network using the builder callback
                 es = self._build_functions[k](list(vertices))
+                if len(es) == 2 and not isinstance(es[0], (tuple, list)):
+                    # a single bare edge (u, v): re-pack it so that it is stored as one entry
+                    es = [es]
                 EdgeList.edge_list.extend(es)
 
                 # add the edge names to a list
